@@ -20,7 +20,7 @@ ASSUMPTIONS = [
     "finite values are symbolic reals",
     "reference: 'missing' is absorbing on streams not configured as zero, counts as 0 on configured streams; division by zero gives None; otherwise the arithmetic value",
     "a virtual-time receive timeout of 5 s without output = 'no sample emitted for the timestamp'",
-    "exact reals: overflow to inf of finite inputs is outside the claim",
+    "exact reals on the symbolic instances (no overflow there); overflow of finite inputs to inf/NaN is covered by the concrete ieee-* instances (7 extreme values per operand)",
 ]
 BOUNDS = {"quick": "API: every tree with <= 2 operands over + - * / max min plus consumption/production wrappers; strings with <= 2 operands; 5 kinds per operand, all flag settings",
           "thorough": "API and strings with <= 3 operands"}
@@ -101,6 +101,45 @@ def make(family, nmax, lo, hi, reach=False):
     return fn
 
 
+IEEE_VALUES = [1e200, -1e200, 1.7e308, -1.7e308, 1e-300, 3.0, 0.0]
+
+
+def make_ieee(family, nmax, lo, hi):
+    """Concrete extreme finite inputs: the result overflows to +-inf (or inf - inf = NaN) although every input is finite.
+    The real-number encoding of the other instances cannot overflow; here each path runs the real engine in IEEE arithmetic and
+    the reference is Python's own float evaluation of the same tree ('not finite' or undefined -> None)."""
+    import math
+    progs = programs(family, nmax)[lo:hi]
+
+    def fn(ex):
+        k = ex.choice("program", len(progs))
+        kind, t, n = progs[k]
+        ex.observe("program", fx.show(t))
+        xs = [IEEE_VALUES[ex.choice(f"v{i}", len(IEEE_VALUES))] for i in range(n)]
+        vals = [Power.from_watts(x) for x in xs]
+        try:
+            expect = fx.ref_eval(t, xs)
+            if math.isnan(expect) or math.isinf(expect):
+                expect = None
+        except (fx.Undefined, ZeroDivisionError, OverflowError):
+            expect = None
+        if kind == "str":
+            out = fx.run_string(fx.render(t, 0), sorted(fx.leaf_ids(t)), dict(enumerate(vals)), zeros=False)
+        else:
+            out = fx.run_api(t, n, vals)
+        if isinstance(out, str):
+            ex.check(False, f"no sample emitted for the timestamp ({out})")
+            return
+        if expect is None:
+            ex.check(out.value is None, f"a value ({out.value}) is emitted although the result is undefined or not finite")
+            return
+        if out.value is None:
+            ex.check(False, "None emitted although the result is defined and finite")
+            return
+        ex.check(math.isclose(out.value.base_value, expect, rel_tol=1e-9, abs_tol=0.0), f"value {out.value.base_value} differs from Python's float evaluation {expect}")
+    return fn
+
+
 def _chunks(family, nmax, nchunks):
     n = len(programs(family, nmax))
     step = max(1, (n + nchunks - 1) // nchunks)
@@ -112,6 +151,10 @@ def _chunks(family, nmax, nchunks):
 
 def instances(tier):
     out = [Instance("reach:api2", "make", ("api", 2, 0, 6, True), "reachability twin", budget_s=60, validate_every=0)]
+    na, ns = len(programs("api", 2)), len(programs("str", 2))
+    out.append(Instance("ieee-api2", "make_ieee", ("api", 2, 0, na), f"all {na} api programs <= 2 operands x 7 extreme finite values per operand (overflow to inf/NaN in IEEE arithmetic)",
+                        budget_s=200, validate_every=0, programs=na))
+    out.append(Instance("ieee-str2", "make_ieee", ("str", 2, 0, ns), f"all {ns} string programs <= 2 operands x 7 extreme finite values per operand", budget_s=100, validate_every=0, programs=ns))
     if tier == "quick":
         out += _chunks("api", 2, 16) + _chunks("str", 2, 5)
     else:
